@@ -213,6 +213,19 @@ func (e *Engine) cmdCheck(prop, tier, evid, known, replayDir string, replay bool
 		// vacuity guard: the assumptions of the function (preconditions, callee postconditions, invariants) are consistent
 		all = append(all, fc.canary())
 	}
+	// structural layout obligations of the generated record codecs (schema.go)
+	switch prop {
+	case "C01":
+		all = append(all, e.layoutObligations([]string{"pack", "unpack"})...)
+	case "C04":
+		all = append(all, e.layoutObligations([]string{"pack"})...)
+	case "C08":
+		all = append(all, e.structuralObligations("len")...)
+	case "C16":
+		all = append(all, e.structuralObligations("copy")...)
+	case "C20":
+		all = append(all, e.structuralObligations("isDuplicate")...)
+	}
 	// lemmas: those tagged with the property and those cited by the functions under contract
 	lemmaSet := map[string]bool{}
 	for _, l := range e.cs.Lemmas {
